@@ -29,7 +29,7 @@ def _sync_lock(crate_dir):
         shutil.copyfile(src, dst)
 
 
-def ensure(crate="bvh", flavour="native", features=None, quiet=True):
+def ensure(crate="bvh", flavour="native", features=None, quiet=True, private=True):
     """Returns the path of the built binary. flavours: native | enum | asan | release"""
     crate_dir = os.path.join(VERIF, "harness", crate)
     os.makedirs(TARGETS, exist_ok=True)
@@ -69,4 +69,17 @@ def ensure(crate="bvh", flavour="native", features=None, quiet=True):
     if triple:
         parts.append(triple)
     parts += [prof, crate]
-    return os.path.join(*parts)
+    built = os.path.join(*parts)
+    if not private:
+        return built
+    # a private copy, so that a concurrent rebuild (another check starting) cannot pull the binary away
+    import atexit
+    d = os.path.join(VERIF, ".work", "bin")
+    os.makedirs(d, exist_ok=True)
+    dst = os.path.join(d, "%s-%s-%d" % (crate, flavour, os.getpid()))
+    if not os.path.exists(dst):
+        with open(lock_path, "w") as lk:
+            fcntl.flock(lk, fcntl.LOCK_EX)
+            shutil.copy2(built, dst)
+        atexit.register(lambda: os.path.exists(dst) and os.remove(dst))
+    return dst
